@@ -2,7 +2,7 @@
 EXTENDS DocClean
 SeqsUpTo(A, n) == UNION {[1..k -> A] : k \in 0..n}
 \* quick: two-line bodies over the characters the code names plus a letter; thorough: the full class alphabet
-A6 == {"#", "[", "]", " ", "a", ":"}
+A6 == {"#", "[", "]", " ", "a", ":", "\t"}    \* (seven classes since round 4: a tab inside the text)
 A9 == {"#", "[", "]", ":", ".", " ", "a", "1", "e"}
 A10 == A9 \cup {"\t"}
 Lines6x2 == SeqsUpTo(A6, 2)
